@@ -296,3 +296,126 @@ pub fn direct_histserde(seed: u64, reps: usize, rep: &mut Report) {
     serde_family::<h100::Histogram>(&mut rng, reps, rep);
     rep.sample(json!({"family": "histogram serde", "edge_families": ["i/LEN*scale", "i*0.1*scale", "1000+0.3i", "with_const_width", "random-sorted-with-repeats"], "reps": reps}));
 }
+
+// ---------------------------------------------------------------------------------------------
+// C13 / C17 beyond TLC's 32-bit integers: counts up to 2^62 (reached by `*= k`, by `+=` and by
+// merging a histogram with its own clone), against the bin semantics of Histogram.tla kept in
+// u128 -- add increments one bin, merge / += add bin-wise, *= k multiplies every bin, reset
+// zeroes -- and the view definitions (tolerance of the variance: count * (1 - count * (1/total)) carries
+// two roundings of relative size u before the cancellation, i.e. up to 2 u count + u variance absolute;
+// 4 u total covers it) -- variance(i) = n_i (N - n_i) / N, normalized(i) = n_i / w_i.
+use crate::exact::U;
+
+use crate::hist::hexact_variance;
+
+fn big_family<H: HistT>(rng: &mut Xoshiro256PlusPlus, reps: usize, prop: &str, rep: &mut Report) {
+    let n = H::LEN;
+    for r in 0..reps {
+        rep.behaviours += 1;
+        rep.nontrivial.insert(hash_str(&format!("big{}{}", H::NAME, r)));
+        let edges: Vec<f64> = (0..=n).map(|i| i as f64 * [1.0, 0.5, 3.0][r % 3]).collect();
+        let mut h = match H::from_ranges(edges.clone()) {
+            Ok(h) => h,
+            Err(_) => continue,
+        };
+        let mut model: Vec<u128> = vec![0; n];
+        let mut history: Vec<String> = Vec::new();
+        let limit: u128 = 1 << 62;
+        for step in 0..14 {
+            let total: u128 = model.iter().sum();
+            let c = rng.random_range(0..100);
+            let res = std::panic::catch_unwind(std::panic::AssertUnwindSafe(|| {
+                if c < 45 || total == 0 {
+                    let i = rng.random_range(0..n);
+                    let x = edges[i] + (edges[i + 1] - edges[i]) * 0.25;
+                    let _ = h.add(x);
+                    model[i] += 1;
+                    history.push(format!("add(bin {i})"));
+                } else if c < 75 {
+                    let k: u64 = [2, 3, 1000, 1 << 20, 1 << 31, (1u64 << 32) + 1][rng.random_range(0..6)];
+                    if total * (k as u128) < limit {
+                        h.mul_assign(k);
+                        for m in model.iter_mut() {
+                            *m *= k as u128;
+                        }
+                        history.push(format!("*= {k}"));
+                    }
+                } else if c < 90 {
+                    if total * 2 < limit {
+                        let cl = h.clone();
+                        if step % 2 == 0 {
+                            h.merge(&cl);
+                        } else {
+                            h.add_assign(&cl);
+                        }
+                        for m in model.iter_mut() {
+                            *m *= 2;
+                        }
+                        history.push("merge / += with its own clone".into());
+                    }
+                } else {
+                    h.reset();
+                    for m in model.iter_mut() {
+                        *m = 0;
+                    }
+                    history.push("reset".into());
+                }
+            }));
+            let fail = |rep: &mut Report, acc: &str, what: String| {
+                rep.violation(json!({"property": prop, "family": "histogram", "type": H::NAME, "embedding": "large counts",
+                    "history": {"edges": edges, "ops": history, "model_bins": model.iter().map(|m| m.to_string()).collect::<Vec<_>>()},
+                    "accessor": acc, "what": what, "signature": format!("{}|{}|big-{}", prop, H::NAME, acc)}));
+            };
+            if res.is_err() {
+                fail(rep, "panic", "the code under test panicked".into());
+                break;
+            }
+            let total: u128 = model.iter().sum();
+            let bins = h.bins();
+            rep.evaluations += 1;
+            if prop == "C13" && bins.iter().zip(&model).any(|(b, m)| *b as u128 != *m) {
+                fail(rep, "bins", format!("bins {:?} but the bin-wise operations give {:?}", bins, model));
+                break;
+            }
+            let views = std::panic::catch_unwind(std::panic::AssertUnwindSafe(|| (h.variances(), (0..n).map(|i| h.variance(i)).collect::<Vec<f64>>(), h.normalized())));
+            let (vs, v1, norm) = match views {
+                Ok(v) => v,
+                Err(_) => {
+                    fail(rep, "panic", "variance / variances / normalized_bins panicked".into());
+                    break;
+                }
+            };
+            if total == 0 {
+                continue;
+            }
+            let t = total as f64;
+            for i in 0..n {
+                rep.evaluations += 3;
+                let want = hexact_variance(model[i], total);
+                for (nm, v) in [("variances", vs[i]), ("variance", v1[i])] {
+                    let bad = if prop == "C17" { !(v >= -4.0 * U * t && v <= t / 4.0 * (1.0 + 4.0 * U)) } else { !((v - want).abs() <= 4.0 * U * t) };
+                    if bad {
+                        fail(rep, nm, format!("{nm}[{i}] = {:e} but n (N - n) / N = {:e} for n = {}, N = {} (range [0, N/4])", v, want, model[i], total));
+                        return;
+                    }
+                }
+                if prop == "C13" {
+                    let w = edges[i + 1] - edges[i];
+                    let wantn = (model[i] as f64) / w;
+                    if !((norm[i] - wantn).abs() <= 4.0 * U * wantn.abs()) {
+                        fail(rep, "normalized_bins", format!("normalized_bins[{i}] = {:e} but n / w = {:e}", norm[i], wantn));
+                        return;
+                    }
+                }
+            }
+        }
+    }
+}
+
+pub fn direct_histbig(prop: &str, seed: u64, reps: usize, rep: &mut Report) {
+    let mut rng = Xoshiro256PlusPlus::seed_from_u64(seed);
+    big_family::<h2::Histogram>(&mut rng, reps, prop, rep);
+    big_family::<h3::Histogram>(&mut rng, reps, prop, rep);
+    big_family::<average::Histogram10>(&mut rng, reps, prop, rep);
+    rep.sample(json!({"family": "histogram large counts", "ops": ["add", "*= k (k up to 2^32+1)", "merge / += with its own clone", "reset"], "count_limit": "2^62", "reps": reps}));
+}
